@@ -1,6 +1,7 @@
 import HdVerif.Proofs.TilingFull
 import HdVerif.Proofs.TilingFraction
 import HdVerif.Proofs.TilingTie
+import HdVerif.Proofs.TilingChannels
 /-! # C04  Tiled images reassemble to the exact total pixel matrix
 
 Property theorems only (helper lemmas: `Proofs/TilingStd.lean`, `Proofs/Tiling.lean`, `Proofs/TilingGrid.lean`,
@@ -467,6 +468,112 @@ theorem bridge_tiling_loop_step {α} (z : α) (M : Img α) (R C tr tc ch : Int) 
            | .ok (rows, frs) => .ok (⟨a, b, base, ch⟩ :: rows, t :: frs)) :=
   cutTilesAux_cons_uses_call z M R C tr tc ch co ro offs keep base
 
+/-! ## Several segments at once, and histories of reads on one object
+
+`Segmentation.get_total_pixel_matrix(segment_numbers=…)` joins the frame table with a temporary channel table (one row per requested
+segment) that is created before and dropped after the read; a call refused inside the `with` block (most designed refusals:
+dtype, rescale / combine combination, unknown or repeated segment numbers, overlapping segments) leaves the table behind.  The SQL
+statements of set-up and clean-up are REGENERATED (`Gen.tempTableSetup`, `Gen.tempTableCleanup`, `Gen.tempTableCleanupOnError`,
+T4t); what one statement does (`Tiling.tempOp`) is a hand-written four-statement fragment of SQLite, tied to the real connection
+by the correspondence stream `history` (table contents after every step, L2). -/
+
+/-- **The look-up of a read holds exactly this request's rows**, whatever an earlier (refused) read left in the connection: after
+the regenerated set-up program the temporary channel table consists of the rows of the current request. -/
+theorem temp_table_holds_exactly_this_request (data : ChanTable) (st : TempState) (hk : (data.map Prod.fst).Nodup) :
+    runOps tempTableSetup data st = (some data, none) :=
+  tempSetup_exact data st hk
+
+/-- … and for ANY request (also one whose rows violate the UNIQUE constraint and is therefore refused) the set-up behaves as on a
+fresh connection. -/
+theorem temp_table_setup_forgets_history (data : ChanTable) (st : TempState) :
+    runOps tempTableSetup data st = runOps tempTableSetup data none :=
+  tempSetup_forgets data st
+
+/-- **Reads do not depend on the history of the object.**  For every sequence of segment-aware region reads on one image — accepted,
+refused before the look-up is set up, refused inside the `with` block (the temporary table then survives), or refused by SQLite —
+and every initial state of the connection, the result of every read is the result the same read gives on a fresh object. -/
+theorem reads_independent_of_history {α} (z : α) (lut : List LutRow) (frames : List (Img α)) (R C th tw : Int) (full am : Bool)
+    (steps : List ChanRead) (st : TempState) :
+    (runHistory z lut frames R C th tw full am steps st).1 =
+      steps.map (fun q => (stepRead z lut frames R C th tw full am q none).2) :=
+  runHistory_indep z lut frames R C th tw full am steps st
+
+/-- **Region assembly for several segments at once** (`segment_numbers = segs`: any subset of the segments, in any order): in a
+table that passes the uniqueness test and in which the rows of every requested segment hold exactly the grid tiles (any frame
+order, channels interleaved in any way) with frames cut from that segment's matrix, output channel `n` of the read is
+`M_{segs[n]}[r0-1 : r1-1, c0-1 : c1-1]` — for every state an earlier read may have left the connection in; and the temporary table is
+gone afterwards. -/
+theorem region_assembly_channels {α} (z : α) (Mseg : Int → Img α) (lut : List LutRow) (frames : List (Img α)) (R C th tw : Int)
+    (ht : 1 ≤ th) (hw : 1 ≤ tw) (hu : uniquePos lut = true) (segs : List Int)
+    (hg : ∀ s ∈ segs, IsGridTable R C th tw (chanRows (some s) lut))
+    (hcut : ∀ s ∈ segs, TableCutFrom (Mseg s) R C th tw (chanRows (some s) lut) frames)
+    (rs re cs ce : Option Int) (ai full : Bool) (st : TempState) (r0 r1 c0 c1 : Int)
+    (hstd : stdRowColIndices rs re cs ce R C ai false = .ok (r0, r1, c0, c1)) (hr : r0 ≤ r1) (hc : c0 ≤ c1) :
+    ∃ out, stepRead z lut frames R C th tw full true (stackedRequest segs rs re cs ce ai) st = (none, .ok (r1 - r0, c1 - c0, out)) ∧
+      ∀ (n : Nat) (s : Int), segs[n]? = some s → ∀ i j, 0 ≤ i → i < r1 - r0 → 0 ≤ j → j < c1 - c0 →
+        out n i j = Mseg s (r0 - 1 + i) (c0 - 1 + j) := by
+  obtain ⟨g1, g2, g3, g4, g5, g6, g7, g8⟩ := stdRowCol_range_num hstd
+  obtain ⟨out, hout, hpix⟩ := stepRead_stacked_spec z Mseg lut frames R C th tw ht hw hu segs hcut rs re cs ce ai full st
+    r0 r1 c0 c1 hstd hr hc
+  refine ⟨out, hout, ?_⟩
+  intro n s hs i j hi0 hi1 hj0 hj1
+  apply (hpix n s hs i j hi0 hi1 hj0 hj1).1
+  exact grid_covers R C th tw ht hw _ (hg s (List.mem_of_getElem? hs)) (r0 + i) (c0 + j) (by omega) (by omega) (by omega) (by omega)
+
+/-- **`tile_then_read` for several segments after ANY history.**  `Segmentation(tile_pixel_array=True)` (explicit positions with or
+without `omit_empty_frames`, or TILED_FULL) followed by an arbitrary sequence of segment-aware reads on that one object — any of
+them refused at any point —: every step that is a stacked read of segments `segs` (any subset of the described segments, any
+order) with an accepted request `start ≤ end` returns, in output channel `k`, the requested part of the matrix handed in for segment
+`segs[k]`.  For every matrix size, tile size (dividing or not), segment list and history. -/
+theorem tile_then_read_after_any_history {α} [BEq α] [LawfulBEq α] (z : α) (Ms : List (Int × Img α)) (R C tr tc : Int)
+    (hr : 1 ≤ tr) (hc : 1 ≤ tc) (hR : 1 ≤ R) (hC : 1 ≤ C) (hnd : (Ms.map Prod.fst).Nodup)
+    (full omitEmpty : Bool) (hfo : (full && omitEmpty) = false)
+    (Mseg : Int → Img α) (segs : List Int) (hsegs : ∀ s ∈ segs, (s, Mseg s) ∈ Ms)
+    (steps : List ChanRead) (n : Nat) (rs re cs ce : Option Int) (ai : Bool)
+    (hstep : steps[n]? = some (stackedRequest segs rs re cs ce ai)) (r0 r1 c0 c1 : Int)
+    (hstd : stdRowColIndices rs re cs ce R C ai false = .ok (r0, r1, c0, c1)) (hr01 : r0 ≤ r1) (hc01 : c0 ≤ c1) :
+    ∃ results out, tileThenHistory z Ms R C tr tc full omitEmpty steps = .ok results ∧
+      results[n]? = some (.ok (r1 - r0, c1 - c0, out)) ∧
+      ∀ (k : Nat) (s : Int), segs[k]? = some s → ∀ i j, 0 ≤ i → i < r1 - r0 → 0 ≤ j → j < c1 - c0 →
+        out k i j = Mseg s (r0 - 1 + i) (c0 - 1 + j) := by
+  obtain ⟨g1, g2, g3, g4, g5, g6, g7, g8⟩ := stdRowCol_range_num hstd
+  -- the table: explicit positions; TILED_FULL (then nothing is omitted) derives the same table
+  have htab : ∃ oe, tiledSegTable z Ms R C tr tc full omitEmpty = tiledSegTable z Ms R C tr tc false oe := by
+    cases full with
+    | false => exact ⟨omitEmpty, rfl⟩
+    | true =>
+      have : omitEmpty = false := by simpa using hfo
+      subst this
+      exact ⟨false, tiledSegTable_full_eq_sparse z Ms R C tr tc hr hc hR hC⟩
+  obtain ⟨oe, htab⟩ := htab
+  obtain ⟨rows, frames, hrows, hu, hspec⟩ := tiledSegTable_sparse_spec z Ms R C tr tc hr hc hR hC hnd oe
+  obtain ⟨out, hout, hpix⟩ := stepRead_stacked_spec z Mseg rows frames R C tr tc hr hc hu segs
+    (fun s hs => (hspec s (Mseg s) (hsegs s hs)).1) rs re cs ce ai full none r0 r1 c0 c1 hstd hr01 hc01
+  refine ⟨(runHistory z rows frames R C tr tc full true steps none).1, out, ?_, ?_, ?_⟩
+  · unfold tileThenHistory
+    rw [htab, hrows]
+  · rw [runHistory_indep, List.getElem?_map, hstep]
+    simp only [Option.map_some, hout]
+  · intro k s hs i j hi0 hi1 hj0 hj1
+    obtain ⟨p1, p2⟩ := hpix k s hs i j hi0 hi1 hj0 hj1
+    by_cases hcov : ∃ r ∈ chanRows (some s) rows, inTile tr tc r (r0 + i) (c0 + j)
+    · exact p1 hcov
+    · rw [p2 hcov]
+      have := (hspec s (Mseg s) (hsegs s (List.mem_of_getElem? hs))).2 (r0 + i) (c0 + j) (by omega) (by omega) (by omega) (by omega) hcov
+      rw [← this]
+      congr 1 <;> omega
+
+/-- **Bridge (`tileThenRead` and the table).**  The single-segment path of `tile_then_read` reads the same table
+`tiledSegTable` the history theorems are about. -/
+theorem bridge_tile_then_read_table {α} [BEq α] (z : α) (Ms : List (Int × Img α)) (R C tr tc : Int) (full omitEmpty : Bool)
+    (chan : Int) (rs re cs ce : Option Int) (asIdx : Bool) :
+    tileThenRead z Ms R C tr tc full omitEmpty chan rs re cs ce asIdx =
+      (match tiledSegTable z Ms R C tr tc full omitEmpty with
+       | .error e => .error e
+       | .ok (lut, frames) => readRegion z lut frames R C tr tc (some chan) rs re cs ce asIdx full true) :=
+  tileThenRead_eq_table z Ms R C tr tc full omitEmpty chan rs re cs ce asIdx
+
+
 end HdVerif.C04
 namespace HdVerif.Examples.C04
 open HdVerif HdVerif.Gen HdVerif.Tiling HdVerif.TilingLemmas HdVerif.C04
@@ -543,5 +650,38 @@ example : tiledRegionWhere 3 1 1 5 0 5 2 2 = .ok true ∧ tiledRegionWhere 5 1 1
 example : missingFrameTest false false 2 2 3 "TILED_SPARSE" = .error .runtime ∧ missingFrameTest false false 2 2 3 "TILED_FULL" = .ok true ∧
     missingFrameTest false true 2 2 3 "TILED_SPARSE" = .ok true := by decide
 example : nonemptyTileCall 2 3 5 4 = .ok (5, 4, 2, 3) := by decide
+
+
+/-- the history theorems instantiated: two segments (the second empty everywhere, so all its tiles are omitted), 5 × 4 in 2 × 3 tiles;
+history = a combined read refused inside the `with` block (its table rows (1, 1), (2, 2) survive), a request outside the matrix,
+then a stacked read of segments [2, 1] (other order than stored) for the last two rows -/
+def exHistory : List ChanRead :=
+  [⟨[(1, 1), (2, 2)], 2, none, none, none, none, false, true⟩,
+   ⟨[(0, 1)], 1, some 9, none, none, none, false, false⟩,
+   stackedRequest [2, 1] (some (-2)) none none (some (-1)) false]
+def exMseg : Int → Img Int := fun s => if s = 1 then exM else fun _ _ => 0
+theorem exMem : ∀ s ∈ [(2 : Int), 1], (s, exMseg s) ∈ [((1 : Int), exM), (2, fun _ _ => 0)] := by
+  intro s hs
+  simp only [List.mem_cons, List.not_mem_nil, or_false] at hs
+  rcases hs with rfl | rfl
+  · exact List.mem_cons_of_mem _ (List.mem_cons_self)
+  · exact List.mem_cons_self
+example : ∃ results out, tileThenHistory (0 : Int) [(1, exM), (2, fun _ _ => 0)] 5 4 2 3 false true exHistory = .ok results ∧
+    results[2]? = some (.ok (2, 3, out)) ∧ out 0 1 2 = 0 ∧ out 1 1 2 = 42 := by
+  obtain ⟨results, out, h1, h2, hp⟩ := tile_then_read_after_any_history (0 : Int) [(1, exM), (2, fun _ _ => 0)] 5 4 2 3
+    (by decide) (by decide) (by decide) (by decide) (by decide) false true rfl
+    exMseg [2, 1] exMem
+    exHistory 2 (some (-2)) none none (some (-1)) false rfl 4 6 1 4 (by decide) (by decide) (by decide)
+  refine ⟨results, out, h1, h2, ?_, ?_⟩
+  · exact (hp 0 2 rfl 1 2 (by decide) (by decide) (by decide) (by decide)).trans rfl
+  · exact (hp 1 1 rfl 1 2 (by decide) (by decide) (by decide) (by decide)).trans rfl
+/-- the set-up theorems speak about the program in the source today: the same statements with `CREATE TABLE IF NOT EXISTS` +
+`INSERT OR REPLACE` instead (a program the interpreter also understands) keep the rows a refused read left behind -/
+example : runOps tempTableSetup [(0, 2)] (some [(1, 1), (2, 2), (3, 3)]) = (some [(0, 2)], none) ∧
+    runOps [(2, true), (3, true)] [(0, 2)] (some [(1, 1), (2, 2), (3, 3)]) = (some [(1, 1), (2, 2), (3, 3), (0, 2)], none) := by decide
+/-- … and a stale row takes part in the join: with the rows (1, 1), (2, 2) of a refused combined read still in the table, the frame of
+segment 2 at tile (1, 1) is joined twice, once for the stale output value 2 and once for the requested channel 0 -/
+example : joinRows [⟨1, 1, 0, 2⟩] [(1, 1), (2, 2), (0, 2)] = [(⟨1, 1, 0, 2⟩, 2), (⟨1, 1, 0, 2⟩, 0)] ∧
+    joinRows [⟨1, 1, 0, 2⟩] [(0, 2)] = [(⟨1, 1, 0, 2⟩, 0)] := by decide
 
 end HdVerif.Examples.C04
